@@ -11,6 +11,7 @@ import lemmas as LM
 import spec_smt as S
 import layout
 import samplers
+import hintlemmas
 from e2run import merged
 
 Q = LM.Q
@@ -638,6 +639,11 @@ class Suite:
             self.run.functions.append('MIR sig_decode / sig_encode / sk_decode / sk_encode / pk_decode / w1_encode (section layout, per parameter set, loop index symbolic)')
         except e2.Refuse as e:
             self.refused('layout obligations', ['C08', 'C02', 'C09'], str(e))
+        try:
+            hintlemmas.run(self.funcs, self.results)
+            self.run.functions.append('MIR hint_bit_unpack (three loops, one iteration each from an arbitrary state; K and omega symbolic)')
+        except (e2.Refuse, KeyError, IndexError) as ex:
+            self.results.append({'name': 'hint_bit_unpack loop lemmas', 'tags': ['C08', 'C02', 'C05', 'C13'], 'verdict': 'refused', 'detail': repr(ex)})
         samplers.run(self.funcs, self.results)
         self.run.functions.append('MIR expand_a / expand_s closures, expand_mask, rej_ntt_poly, rej_bounded_poly (seed construction; one loop iteration from an arbitrary counter)')
         return self.results
